@@ -19,6 +19,7 @@ from ..ratfun import Rat
 from ..symex import (Inst, Func, Builtin, Rec, PyRaise, ModuleV, Opaque,
                      is_scalar, to_rat)
 from ..namodel import NA, DT, objarr, na_of
+from ..spacemodel import NotAnElement
 from ..spacemodel import (SMHooks, SMInterp, NSpace, NPSpace, NField, NElem,
                           NPElem, sym_elem, inner, flat)
 from .. import posalg as PA
@@ -206,6 +207,10 @@ def run(rep, model):
             rep.violation('R8', name, 'raises %s at `%s`' % (
                 e.name, ast.unparse(e.node)[:70] if e.node is not None
                 else '?'), rel, getattr(e.node, 'lineno', None))
+            continue
+        except NotAnElement as e:
+            rep.violation('R8', name, 'a call yields no element: %s' % e,
+                          rel)
             continue
         probs = []
         if 'exc' in r:
